@@ -6,12 +6,20 @@ EXTENDS Selection
 B == BOOLEAN
 Item(k, id, form, doc, trail, gen, named, marked, lookalike, nmeth, short, oneline, mdoc, after, gap) ==
   [k |-> k, id |-> id, form |-> form, doc |-> doc, trail |-> trail, gen |-> gen, named |-> named, marked |-> marked,
-   lookalike |-> lookalike, nmeth |-> nmeth, short |-> short, oneline |-> oneline, mdoc |-> mdoc, after |-> after, gap |-> gap]
+   lookalike |-> lookalike, nmeth |-> nmeth, short |-> short, oneline |-> oneline, mdoc |-> mdoc, after |-> after, gap |-> gap,
+   long |-> FALSE, nm |-> "std"]
+\* long: the first line of the item's comment is much longer than the directive line below it
+WithLong(it) == [it EXCEPT !.long = TRUE]
+\* nm: how a marked converter interface is called - "std"; "prefix": the name of the file's other converter interface
+\* followed by more letters (ConvergenStorage next to Convergen); "long": forty characters
+WithNm(it, n) == [it EXCEPT !.nm = n]
 Decl(id, form, doc, trail, gen) == Item("decl", id, form, doc, trail, gen, FALSE, FALSE, FALSE, 0, FALSE, FALSE, FALSE, FALSE, 1)
 Intf(id, named, marked, lookalike, doc, gen, nmeth, short, oneline, mdoc, trail, after, gap) ==
   Item("intf", id, "intf", doc, trail, gen, named, marked, lookalike, nmeth, short, oneline, mdoc, after, gap)
 TMark(id) == Item("tmark", id, "type", TRUE, FALSE, FALSE, FALSE, TRUE, FALSE, 0, FALSE, FALSE, FALSE, FALSE, 1)
 Float(id) == Item("float", id, "float", FALSE, FALSE, FALSE, FALSE, FALSE, FALSE, 0, FALSE, FALSE, FALSE, FALSE, 1)
+\* a floating comment whose last line is a go:generate line, below a long line
+FloatGen(id) == WithLong([Float(id) EXCEPT !.gen = TRUE])
 
 LayE(items, pkgdoc, build, imports, sibling, embed) == [items |-> items, pkgdoc |-> pkgdoc, build |-> build, imports |-> imports, sibling |-> sibling, embed |-> embed]
 Lay(items, pkgdoc, build, imports, sibling) == LayE(items, pkgdoc, build, imports, sibling, "none")
@@ -22,18 +30,25 @@ ConvShape(id, named, doc, gen, nmeth, short, oneline, mdoc, trail, after, gap) =
   Intf(id, named, ~named, FALSE, doc, gen, nmeth, short, oneline, mdoc, trail, after, gap)
 Medium(id, named) == ConvShape(id, named, TRUE, FALSE, 2, FALSE, FALSE, TRUE, FALSE, FALSE, 1)
 Plain(id) == Intf(id, FALSE, FALSE, FALSE, TRUE, FALSE, 2, FALSE, FALSE, TRUE, TRUE, FALSE, 1)
-Pres  == {<< >>, <<Decl("pre", "var", TRUE, TRUE, FALSE)>>}
+Pres  == {<< >>, <<Decl("pre", "var", TRUE, TRUE, FALSE)>>, <<WithLong(Decl("pre", "var", TRUE, FALSE, TRUE))>>, <<FloatGen("fl")>>}
 \* a second converter interface directly below, as close as it can get: no doc, a short name (marked),
 \* or - when the first one is not called Convergen - an undocumented interface named Convergen
 Tight(id) == ConvShape(id, FALSE, FALSE, FALSE, 1, TRUE, FALSE, FALSE, FALSE, FALSE, 1)
 TightNamed(id) == ConvShape(id, TRUE, FALSE, FALSE, 1, FALSE, FALSE, FALSE, FALSE, FALSE, 1)
-Posts == {<< >>, <<Decl("post", "func", FALSE, FALSE, FALSE)>>, <<Medium("c2", FALSE)>>, <<Plain("p2")>>, <<Tight("c2")>>, <<TightNamed("c2")>>}
+Posts == {<< >>, <<Decl("post", "func", FALSE, FALSE, FALSE)>>, <<Medium("c2", FALSE)>>, <<Plain("p2")>>, <<Tight("c2")>>, <<TightNamed("c2")>>,
+          <<WithNm(Medium("c2", FALSE), "prefix")>>}
+IsConv(q) == q # << >> /\ q[1].k = "intf" /\ (q[1].named \/ q[1].marked)
 InitAccept ==
   /\ \E named \in B, doc \in B, gen \in B, short \in B, after \in B, gap \in {0, 1}, pre \in Pres :
      \E post \in {q \in Posts : q = << >> \/ ~(named /\ q[1].named)} :      \* only one interface can be called Convergen
        \/ \E nmeth \in {1, 2}, mdoc \in B, trail \in B :
             layout = Lay(pre \o <<ConvShape("c1", named, doc, gen, nmeth, short, FALSE, mdoc, trail, after, gap)>> \o post,
                          FALSE, "gobuild", "none", "none")
+       \* the first of two converter interfaces is called like the second plus more letters, or has a very long name
+       \/ \E nm \in {"prefix", "long"} :
+            /\ ~named /\ IsConv(post) /\ post[1].nm = "std" /\ (nm = "prefix" => ~(post[1].short /\ ~post[1].doc))
+            /\ layout = Lay(pre \o <<WithNm(ConvShape("c1", FALSE, doc, gen, 1, short, FALSE, FALSE, FALSE, after, gap), nm)>> \o post,
+                            FALSE, "gobuild", "none", "none")
        \/ layout = Lay(pre \o <<ConvShape("c1", named, doc, gen, 1, short, TRUE, FALSE, FALSE, after, gap)>> \o post,
                        FALSE, "gobuild", "none", "none")
   /\ Rest
@@ -42,11 +57,12 @@ InitAccept ==
 DeclAttrs == {<<FALSE, FALSE, FALSE>>, <<TRUE, FALSE, FALSE>>, <<TRUE, TRUE, FALSE>>, <<TRUE, FALSE, TRUE>>, <<FALSE, TRUE, FALSE>>, <<FALSE, FALSE, TRUE>>}
 Forms == {"var", "func", "type", "const", "varblock", "method", "blockvar"}
 InitCarry ==
-  /\ \E named \in B, form1 \in Forms, a1 \in DeclAttrs, mid \in B, pkgdoc \in B, after \in B,
+  /\ \E named \in B, form1 \in Forms, a1 \in DeclAttrs, mid \in {"none", "float", "floatgen"}, long1 \in B, pkgdoc \in B, after \in B,
         build \in {"gobuild", "plusbuild", "both"}, imports \in {"none", "used", "mixed"} :
        \E post \in {<< >>} \cup {<<Decl("post", f, a[1], a[2], a[3])>> : f \in {"func", "type", "varblock"}, a \in DeclAttrs} :
-         layout = Lay(<<Decl("pre", form1, a1[1], a1[2], a1[3])>>
-                      \o (IF mid THEN <<Float("fl")>> ELSE << >>)
+         /\ (long1 => a1[1] /\ a1[3] /\ form1 \in {"var", "func", "type"})      \* a long doc line matters above a go:generate line only
+         /\ layout = Lay(<<IF long1 THEN WithLong(Decl("pre", form1, a1[1], a1[2], a1[3])) ELSE Decl("pre", form1, a1[1], a1[2], a1[3])>>
+                      \o (CASE mid = "float" -> <<Float("fl")>> [] mid = "floatgen" -> <<FloatGen("fl")>> [] OTHER -> << >>)
                       \o <<ConvShape("c1", named, ~named, FALSE, 2, FALSE, FALSE, named, after, after, 1)>>
                       \o post, pkgdoc, build, imports, "none")
   /\ Rest
@@ -62,19 +78,27 @@ Emb == Intf("emb", FALSE, FALSE, FALSE, TRUE, FALSE, 1, FALSE, FALSE, FALSE, FAL
 \* at most one interface may be called Convergen in one file
 OneNamed(ks) == Cardinality({j \in DOMAIN ks : ks[j] = "named"}) <= 1
 InitSelect ==
-  /\ \E n \in 1..3, sibling \in {"none", "marked", "named"} :
-       \E ks \in [1..n -> Kinds] :
-         /\ OneNamed(ks)
-         \* two interfaces called Convergen in one package would not compile
-         /\ (sibling = "named" => \A j \in DOMAIN ks : ks[j] # "named")
-         /\ LET its == [j \in 1..n |-> Mk(ks[j], CASE j = 1 -> "i1" [] j = 2 -> "i2" [] OTHER -> "i3")]
-                hasConv == \E j \in 1..n : ks[j] \in {"named", "marked"} IN
-            \E embed \in {"none", "file", "sibling"}, embFirst \in B :
-              /\ (embed # "none" => hasConv)
-              /\ (embed # "file" => ~embFirst)
-              \* the embedded interface of this file is an unmarked interface like any other, before or after its user
-              /\ layout = LayE(IF embed = "file" THEN (IF embFirst THEN <<Emb>> \o its ELSE its \o <<Emb>>) ELSE its,
-                               TRUE, "gobuild", "used", sibling, embed)
+  /\ \/ \E n \in 1..3, sibling \in {"none", "marked", "named"} :
+          \E ks \in [1..n -> Kinds] :
+            /\ OneNamed(ks)
+            \* two interfaces called Convergen in one package would not compile
+            /\ (sibling = "named" => \A j \in DOMAIN ks : ks[j] # "named")
+            /\ LET its == [j \in 1..n |-> Mk(ks[j], CASE j = 1 -> "i1" [] j = 2 -> "i2" [] OTHER -> "i3")]
+                   hasConv == \E j \in 1..n : ks[j] \in {"named", "marked"} IN
+               \E embed \in {"none", "file", "sibling"}, embFirst \in B :
+                 /\ (embed # "none" => hasConv)
+                 /\ (embed # "file" => ~embFirst)
+                 \* the embedded interface of this file is an unmarked interface like any other, before or after its user
+                 /\ layout = LayE(IF embed = "file" THEN (IF embFirst THEN <<Emb>> \o its ELSE its \o <<Emb>>) ELSE its,
+                                  TRUE, "gobuild", "used", sibling, embed)
+     \* two converter interfaces whose names are related: one is called like the other plus more letters, or has forty
+     \* characters; either one first; loosely or tightly packed; a third, unmarked interface may follow
+     \/ \E nm \in {"prefix", "long"}, other \in {"named", "marked"}, tight \in B, nmFirst \in B, tail \in B :
+          LET a == WithNm(IF tight THEN ConvShape("i1", FALSE, FALSE, FALSE, 1, FALSE, FALSE, FALSE, FALSE, FALSE, 1) ELSE Medium("i1", FALSE), nm)
+              b == IF tight THEN (IF other = "named" THEN TightNamed("i2") ELSE ConvShape("i2", FALSE, FALSE, FALSE, 1, FALSE, FALSE, FALSE, FALSE, FALSE, 1))
+                            ELSE Medium("i2", other = "named")
+              two == IF nmFirst THEN <<a, b>> ELSE <<b, a>> IN
+          layout = LayE(two \o (IF tail THEN <<Plain("i3")>> ELSE << >>), TRUE, "gobuild", "used", "none", "none")
   /\ Rest
 
 SpecAccept == InitAccept /\ [][Next]_vars
